@@ -517,11 +517,8 @@ def r4(ctx):
         if 'TR.sequence' in got or 'TR.qualities' in got:
             ok = got.get('TR.sequence') == 'REC.sequence[self.sequenceCapture[IDX]]' and got.get('TR.qualities') == 'REC.qual[self.sequenceCapture[IDX]]'
     ctx.emit('C02-R4', ok, BASEDEMUX, cap[0] if cap else f, 'emitted sequence and qualities are the capture slice of the same mate (position in the zip of records and tagged records)', key='capture-same-mate')
-    init = ctx.fn(BASEDEMUX, 'UmiBarcodeDemuxMethod.__init__')
-    t = src(init)
-    ok = 'self.sequenceCapture[barcodeRead] = slice(barcodeLength + umiLength, None)' in t.replace('\n', ' ').replace('  ', '').replace('( ', '(') or \
-        'slice(barcodeLength + umiLength, None)' in t
-    ctx.emit('C02-R4', ok, BASEDEMUX, init, 'contiguous layouts: the emitted stretch starts after barcode + UMI', key='capture-start-formula')
+    # where the emitted stretch starts for each strategy (after barcode + UMI, after an adapter ...) is part of the resolved layout compared with the pinned table by C02-R8;
+    # no separate reading of how the base constructor spells the slice
 
 
 @rule('C02', 'C02-R5', 'the barcode length of every layout equals the length of the barcodes in its whitelist file')
@@ -880,6 +877,66 @@ def r9(ctx):
                  key=f'mate-index-truthiness:{src(e)}', what='a mate index is tested for truth instead of `is None`')
     if not bad:
         ctx.emit('C02-R9', True, BASEDEMUX, None, f'mate indices {sorted(idx_attrs)} are compared with None, never tested for truth ({n} tests inspected)', key='mate-index-truthiness')
+
+
+@rule('C02', 'C02-R12', 'a cut whose position is read off the bases (the poly-T prune of the transcriptome reads: `r.sequence = r.sequence[pos:]` with pos found by scanning the read) '
+                        'is applied only to records of the sub-strategy it belongs to: in the combined DamID + transcriptome strategies the pruned record comes from '
+                        '`self.transcriptome_demux.demultiplex(..)`, never from the DamID sub-strategy (its insert starts at the layout position, leading T bases are insert)')
+def r12(ctx):
+    n = 0
+    for rel in [p for p in ctx.ix.pyfiles() if p.startswith(DEMUXMODS)]:
+        m = ctx.ix.module(rel)
+        for q, ds in m.defs.items():
+            for f in ds:
+                if not isinstance(f, ast.FunctionDef) or 'transcriptome_demux' not in src(m.tree):
+                    continue
+                if q in {h_.split(':')[-1] for _c, h_, _how in (getattr(m, 'inlined', None) or [])}:
+                    continue            # a helper whose body is analysed inside every function that calls it
+                defs = {}
+                for a in walk_no_nested(f):
+                    if isinstance(a, ast.Assign) and len(a.targets) == 1 and isinstance(a.targets[0], ast.Name):
+                        defs.setdefault(a.targets[0].id, []).append(a.value)
+
+                def origin(e, depth=0):
+                    """the sub-strategies whose demultiplex() result the record expression can denote"""
+                    if depth > 6:
+                        return {'?'}
+                    if isinstance(e, ast.Subscript):
+                        return origin(e.value, depth + 1)
+                    if isinstance(e, ast.Call) and isinstance(e.func, ast.Attribute) and e.func.attr == 'demultiplex':
+                        recv = e.func.value
+                        params = [a_.arg for a_ in f.args.args]
+                        if isinstance(recv, ast.Name) and recv.id in params and recv.id != 'self':
+                            # the sub-strategy is a parameter of a helper: every value the callers in this module hand over
+                            got = set()
+                            k = params.index(recv.id) - (1 if params and params[0] == 'self' else 0)
+                            for c_ in ast.walk(m.tree):
+                                if isinstance(c_, ast.Call) and isinstance(c_.func, ast.Attribute) and c_.func.attr == f.name and src(c_.func.value) == 'self':
+                                    a_ = c_.args[k] if k < len(c_.args) else next((kw.value for kw in c_.keywords if kw.arg == recv.id), None)
+                                    got.add(src(a_) if a_ is not None else '?')
+                            return got or {'?'}
+                        return {src(recv)}
+                    if isinstance(e, ast.Name) and e.id in defs:
+                        out = set()
+                        for v in defs[e.id]:
+                            if isinstance(v, ast.Constant) and v.value is None:
+                                continue
+                            out |= origin(v, depth + 1)
+                        return out
+                    return {'?'}
+                for st in walk_no_nested(f):
+                    if isinstance(st, ast.Assign) and len(st.targets) == 1 and isinstance(st.targets[0], ast.Attribute) and st.targets[0].attr == 'sequence' \
+                            and isinstance(st.value, ast.Subscript) and isinstance(st.value.slice, ast.Slice) and isinstance(st.value.slice.lower, ast.Name) and st.value.slice.upper is None:
+                        n += 1
+                        src_ = origin(st.targets[0].value)
+                        if src_ == {'self.transcriptome_demux'}:
+                            ctx.emit('C02-R12', True, rel, st, f'{q}: the scanned prune `{src(st)}` applies to the records of self.transcriptome_demux', key=f'{q}:prune-owner:{sorted(src_)}')
+                        elif 'self.damid_demux' in src_:
+                            ctx.emit('C02-R12', False, rel, st, f'{q}: the scanned prune `{src(st)}` is applied to records of {sorted(src_)}: leading T bases of a DamID insert are cut off the emitted read and '
+                                     f'recorded nowhere', key=f'{q}:prune-owner:{sorted(src_)}', what=f'{q}: the poly-T prune of the transcriptome reads is applied to DamID records')
+                        else:
+                            ctx.emit('C02-R12', False, rel, st, f'{q}: cannot tell which sub-strategy the pruned record `{src(st.targets[0].value)}` comes from ({sorted(src_)})', key=f'{q}:prune-owner', undecided=True)
+    ctx.need('C02-R12', n, 1, 'scanned prunes in the combined strategies')
 
 
 META = {
